@@ -94,7 +94,9 @@ FEATURES = {
 }
 
 SELECTIONS = [("entity", (X,)), ("setof", (X, Y)), ("entity", (Y,)), ("entity", (A(X, "a"),)),
-              ("setof", (X, A(X, "a"))), ("setof", (Y, X)), ("setof", (A(X, "b"), A(Y, "b")))]
+              ("setof", (X, A(X, "a"))), ("setof", (Y, X)), ("setof", (A(X, "b"), A(Y, "b"))),
+              # several selected expressions over ONE variable that no selected variable binds first
+              ("setof", (A(X, "a"), A(X, "b"))), ("setof", (A(X, "a"), X)), ("setof", (Y, A(X, "a"), A(X, "b")))]
 
 
 def negations(c):
